@@ -179,8 +179,7 @@ def concretise(program, users=USERS, tree=INITIAL_TREE, ipv6=False, profile="def
             rnfr_unknown = True
         if V == "RNFR":
             rnfr_unknown = False
-        if V == "RNTO" and rnfr_unknown:
-            judge, why = False, "pending rename across re-USER"
+        # (a pending rename never survives USER since the F17 repair: the model clears it, RNTO is judged like any other)
         connect = cs["connect"]
         if connect in ("before", "after") and not m.port_known:
             connect = cs["connect"] = "never"
